@@ -142,6 +142,7 @@ def main(ctx):
     ctx.sample({'cell': json.loads(json.dumps(list(cells[0]))), 'impl': impl[0]})
     e2e(ctx, falcon, testing, model)
     wiring(ctx, falcon, model)
+    aliasing(ctx, falcon, testing, model)
 
 
 disagreements = []
@@ -361,3 +362,50 @@ def wiring(ctx, falcon, model):
                                           'what': 'App(cors_enable)/add_middleware accept/refuse pattern differs: '
                                                   'cors_enable must keep exactly one CORSMiddleware instance'},
                           key='wiring')
+
+
+def aliasing(ctx, falcon, testing, model):
+    """The policy is the configuration given at construction: a caller that later mutates the
+    very set objects it passed in must not change whom the middleware grants access to."""
+    cases, impl, metas = [], [], []
+    for ao_t in (set, frozenset, list, tuple):
+        for ac_t in (set, frozenset, list, None):
+            ao = ao_t(['http://a', 'http://b'])
+            ac = None if ac_t is None else ac_t(['http://a'])
+            mw = falcon.CORSMiddleware(allow_origins=ao, allow_credentials=ac, expose_headers='X-A')
+            # the caller goes on using (and extending) its own collections
+            for coll in (ao, ac):
+                if isinstance(coll, set):
+                    coll.add('http://evil')
+                    coll.add('*')
+                elif isinstance(coll, list):
+                    coll.append('http://evil')
+            for origin in ('http://a', 'http://b', 'http://evil', '*'):
+                for method, acrm in (('GET', None), ('OPTIONS', 'PUT')):
+                    pre = {'Allow': 'GET, PUT'}
+                    hdrs = {'Origin': origin}
+                    if acrm:
+                        hdrs['Access-Control-Request-Method'] = acrm
+                    req = testing.create_req(method=method, headers=hdrs)
+                    resp = falcon.Response()
+                    for k, v in pre.items():
+                        resp.set_header(k, v)
+                    mw.process_response(req, resp, None, True)
+                    impl.append(dict(resp.headers))
+                    cfg = (['http://a', 'http://b'], 'X-A', None if ac_t is None else ['http://a'])
+                    cases.append([2, wire_cfg(*cfg), wire_req(origin, method, acrm, None), wire_headers(pre), True,
+                                  wire_headers(impl[-1])])
+                    metas.append((ao_t.__name__, None if ac_t is None else ac_t.__name__, origin, method, acrm))
+    outs = model.run_many(cases)
+    for m, r, o in zip(metas, impl, outs):
+        ctx.note_case(('alias',) + m, m[2] == 'http://evil')
+        ctx.count('aliasing')
+        if o[0] == 1 and o[1]:
+            ctx.violation('cors-clause-violated',
+                          {'what': 'the middleware follows later mutations of the collection objects passed to its '
+                                   'constructor: an origin that was not configured is granted access',
+                           'allow_origins_type': m[0], 'allow_credentials_type': m[1], 'origin': m[2], 'method': m[3],
+                           'acrm': m[4], 'configured': {'allow_origins': ['http://a', 'http://b'],
+                                                        'allow_credentials': ['http://a'] if m[1] else None},
+                           'mutation': "caller added 'http://evil' (and '*') to its own set/list after construction",
+                           'impl': r, 'clauses_failed': o[1]}, key='alias-%s' % o[1])
